@@ -6,7 +6,8 @@ package aggregator
 // ordered", from an arbitrary pre-state with at most two open first-level buckets (times key subsets of
 // {a,b}) that satisfies the invariant
 //
-//	Inv: tsList strictly ascending = key set of aggregations; every open bucket start >= cutExcl;
+//	Inv: tsList strictly ascending = key set of aggregations; every open bucket (one that holds a
+//	     processor) has start >= cutExcl;
 //	     cutExcl <= now-Wait+1, where cutExcl-1 is the cutoff of the latest flush (everything below
 //	     cutExcl may already have been emitted, nothing at or above it has).
 //
@@ -46,11 +47,13 @@ func c10StepRep(a *Aggregator, open []*c10Acc, cutExcl uint) {
 		if i > 0 {
 			verifAssert(a.tsList[i-1] < q, "step-invariant-tslist-strictly-ascending")
 		}
-		verifAssert(q >= cutExcl, "step-invariant-open-bucket-above-last-cutoff")
 		agg, ok := a.aggregations[q]
 		if !ok {
 			verifFail("step-invariant-tslist-lists-open-buckets")
 			continue
+		}
+		if len(agg.state) > 0 { // (a too-old point leaves an empty first-level bucket behind: it never emits)
+			verifAssert(q >= cutExcl, "step-invariant-open-bucket-above-last-cutoff")
 		}
 		nstate += len(agg.state)
 	}
@@ -100,13 +103,15 @@ func VerifC10Step() {
 	var prev uint
 	for i := 0; i < nb; i++ {
 		q := uint(verifUint32("q"))
-		verifAssume(q >= cutExcl)
+		keys := verifChoice("keys", 4) // {}, {a}, {b}, {a,b}; {} = left behind by a too-old point
+		if keys > 0 {
+			verifAssume(q >= cutExcl)
+		}
 		if i > 0 {
 			verifAssume(q > prev)
 		}
 		prev = q
 		agg := &aggregation{state: make(map[string]Processor)}
-		keys := verifChoice("keys", 4) // {}, {a}, {b}, {a,b}; {} = a bucket created by a too-old point
 		if keys == 1 || keys == 3 {
 			acc := verifFloat64("acc")
 			agg.state["a"] = &Sum{sum: acc}
